@@ -68,6 +68,18 @@ META = {
                 'backends are exercised, not modelled here (C07 proves them equal to the map this model uses)'],
     'models': ['M2'],
 }
+META['rule'] += ('; fragments: records of tasks sharing a source made to diverge by partial runs / reset-dep / forget, '
+                 'a run caused by a false uptodate item while a source has other content followed by an exact restore, '
+                 'an action rewriting its own file_dep in place (same or other size) followed by a touch; exhaustive '
+                 'families on two tasks sharing a file_dep and on one task with an uptodate item that can turn false; '
+                 'calc_dep scenario family (scan -> obj<i>, 3 selection orders x 1-2 consumers x serial/thread/process): '
+                 'outside M2, no correspondence, monitor = statement-level Python predicate (every run of the script is '
+                 'fully successful, so the set of tasks whose inputs changed since their last successful execution is '
+                 'known by construction: skipped => not in the set (C03), executed => in the set (C04))')
+META['level_note'] += ('  The ghost `saw` of an execution is the file system AFTER the action ran (what save_success '
+                       'reads), so an action that rewrites its own file_dep is judged against the content it left.  '
+                       'An exact restore of an older (content, mtime) pair is not in the model\'s alphabet (edits always '
+                       'get a fresh mtime): timestamp-checker variants of "restore the old version" are not generated.')
 
 
 def run(ctx):
@@ -76,6 +88,7 @@ def run(ctx):
     statuslib.run_property(ctx, 'C03', n_random, exh_len=(3 if quick and ctx.boost == 1 else 4 if quick else 5),
                            macro_len=(3 if quick and ctx.boost == 1 else 4),
                            shared_len=(3 if quick and ctx.boost == 1 else 4),
+                           utd_len=(3 if quick and ctx.boost == 1 else 4),
                            parallel_share=0.0, n_info=(20 if quick else 300))
 
 
